@@ -197,6 +197,20 @@ int main(void)
 	st = of_set_fec_parameters(dec, fill_params(&prm, CODEC, PK, PR, PLEN, PM, PN1, PSEED));
 	CHECK(st == OF_STATUS_OK, "SETUP.decoder_params_accepted");
 	if (step++ == CUT) goto done;
+#if defined(BOTH_ENCODES) && ROLE_BOTH
+	/* an encoder+decoder instance used both ways: it first builds every repair symbol itself */
+	{
+		void *t2[PN];
+		for (esi = 0; esi < PK; esi++) t2[esi] = src[esi];
+		for (esi = PK; esi < PN; esi++) {
+			t2[esi] = xmalloc(PLEN);
+			st = of_build_repair_symbol(dec, t2, esi);
+			CHECK(st == OF_STATUS_OK, "SETUP.build_repair_on_encoder_decoder_instance");
+			for (j = 0; j < PLEN; j++) CHECK(((unsigned char *)t2[esi])[j] == enc_tab[esi][j], "C12.encoder_decoder_instance_builds_the_same_repair_symbol");
+		}
+		for (esi = PK; esi < PN; esi++) free(t2[esi]);
+	}
+#endif
 #if CB != 0
 	st = of_set_callback_functions(dec, source_cb, NULL, &cb_ctx_token);
 	CHECK(st == OF_STATUS_OK, "SETUP.set_callback_ok");
